@@ -58,7 +58,8 @@ def at_init(c, a):
     c.v.pop("space", None)
     c.v["n"] = 0
     c.v["inited"] = True
-    return {"ret": c.L.HAinit_group(GRP, 8)}
+    # (a hash table of 2 buckets: every other id shares a bucket, so the chains are walked, unlinked in the middle, ...)
+    return {"ret": c.L.HAinit_group(GRP, 2)}
 
 
 @op("Atoms", "Register")
@@ -83,6 +84,22 @@ def at_burn(c, a):
     done = c.L.h4v_burn_atoms(GRP, n)
     c.v["space"] = a["space"]
     return {"ret": 0 if done == n else FAIL}
+
+
+_SEARCH_T = ctypes.CFUNCTYPE(c_int, c_void_p, c_void_p)
+
+
+@_SEARCH_T
+def _same_object(obj, key):
+    return 1 if (obj or 0) == (key or 0) else 0
+
+
+@op("Atoms", "Search")
+def at_search(c, a):
+    c.L.HAsearch_atom.argtypes = [c_int, _SEARCH_T, c_void_p]
+    c.L.HAsearch_atom.restype = c_void_p
+    r = c.L.HAsearch_atom(GRP, _same_object, a["obj"])
+    return {"ret": int(r) if r else 0}
 
 
 @op("Atoms", "Lookup")
